@@ -751,6 +751,7 @@ fn random_schedule(rng: &mut Rng, n: usize, focus_c06: bool) -> Vec<String> {
     let mut have_slot = vec![false; n];
     let mut max_tick = tick;
     let mut restarted_since_max = false;
+    let mut ever_restarted = false;
     let mut race_key = 0x40u64;
     for _ in 0..len {
         // the wall clock moves (sometimes stalls or steps back a little): everything stays
@@ -766,6 +767,12 @@ fn random_schedule(rng: &mut Rng, n: usize, focus_c06: bool) -> Vec<String> {
         if restarted_since_max {
             tick = tick.max(max_tick + 1);
             restarted_since_max = false;
+            ever_restarted = true;
+        }
+        if ever_restarted {
+            // ... and it must not step back below it later either: the restarted node's clock knows
+            // nothing but the wall until somebody tells it a newer stamp
+            tick = tick.max(max_tick);
         }
         max_tick = max_tick.max(tick);
         toks.push(format!("W:{:x}", tick));
